@@ -73,30 +73,30 @@ type hop struct {
 
 // gspec is the generator-level description of a case (the feature vector).
 type gspec struct {
-	N      int
-	Edges  []gedge
-	Place  []int // node -> document id
-	Shape  []int // node -> 0 definitions/<name>, 1 nested pointer, 2 list element pointer, 3 whole document
-	Names  int   // 0 plain, 1 names needing escapes, 2 case variants
-	FragEsc int  // 0 minimal percent-escaping in fragments, 1 full escaping
-	Entry  int   // see entryNames
-	Chain  []hop // for chain entries: the documents the chain passes through
+	N          int
+	Edges      []gedge
+	Place      []int // node -> document id
+	Shape      []int // node -> 0 definitions/<name>, 1 nested pointer, 2 list element pointer, 3 whole document
+	Names      int   // 0 plain, 1 names needing escapes, 2 case variants
+	FragEsc    int   // 0 minimal percent-escaping in fragments, 1 full escaping
+	Entry      int   // see entryNames
+	Chain      []hop // for chain entries: the documents the chain passes through
 	EntrySpell int
-	IDs    []string // optional "id" per node ("" none)
-	NoDecoys bool
-	Breaks   map[int]int // edge index (or -1: entry refs to N0, -10-k: chain hop k) -> break mode
+	IDs        []string // optional "id" per node ("" none)
+	NoDecoys   bool
+	Breaks     map[int]int // edge index (or -1: entry refs to N0, -10-k: chain hop k) -> break mode
 }
 
 // break modes: how a reference is made unresolvable
 const (
-	brkNone = iota
+	brkNone      = iota
 	brkNoPointer // the pointer leads nowhere
 	brkNoDoc     // the document does not exist
 	brkString    // the target is a string
 	brkNumber
 	brkBool
 	brkArray
-	brkNull // (not in C08's list: used by C04 only)
+	brkNull     // (not in C08's list: used by C04 only)
 	brkCaseName // the pointer names an entry that differs from an existing one by letter case only
 	nBreaks
 )
